@@ -1,4 +1,4 @@
-(* generated layout: one invariant group, one part of the labels (TaskThm.v) *)
+(* generated layout: one invariant group / structural fact, one part of the labels (TaskThm.v) *)
 From Compio.Model Require Import Base Task.
 From Compio.Thm Require Import TaskThm.
 Local Open Scope nat_scope.
